@@ -265,7 +265,8 @@ def run_check(prop, tier, seed, repo_root, write_ledger, t0):
     )
     if lean_results:
         cov["lemma_files"] = lean_results
-    pyx_files = sorted({rep.key.split("::")[0] for rep in reports if rep.key.split("::")[0].endswith(".pyx")})
+    pyx_files = sorted({rep.key.split("::")[0] for rep in reports if rep.key.split("::")[0].endswith(".pyx")}
+                       | {f for c in prun.load_contracts(prop).values() for f in getattr(c, "pyx_source", ())})
     if pyx_files:
         from .pyxstrip import strip
         cov["extraction"] = dict(tool="pyvc/pyxstrip.py (mechanical, re-run on every check from the current .pyx text; rules D1-D10 in its docstring)", files={})
